@@ -281,50 +281,53 @@ Qed.
 (* T3: once, in reception order, before newer messages (guarded)           *)
 (* ====================================================================== *)
 Definition ok19 (c : Z) (e : qent) : Prop := q_type e = REINJECT /\ q_cnt e <= c.
-Definition ok20 (c : Z) (e : qent) : Prop := q_type e = MSG_ALGO /\ q_cnt e <= c.
+Definition ok20 (t c : Z) (e : qent) : Prop := q_type e = t /\ q_cnt e <= c.
 
 Lemma ok19_mono c c' e : c <= c' -> ok19 c e -> ok19 c' e.
 Proof. unfold ok19. intros ? [? ?]. split; auto. lia. Qed.
-Lemma ok20_mono c c' e : c <= c' -> ok20 c e -> ok20 c' e.
+Lemma ok20_mono t c c' e : c <= c' -> ok20 t c e -> ok20 t c' e.
 Proof. unfold ok20. intros ? [? ?]. split; auto. lia. Qed.
 
-Definition qshape (q : list qent) (c : Z) (l19 l20 : list qent) : Prop :=
-  q = l19 ++ l20 /\ Forall (ok19 c) l19 /\ Forall (ok20 c) l20.
+Definition qshape (t : Z) (q : list qent) (c : Z) (l19 l20 : list qent) : Prop :=
+  q = l19 ++ l20 /\ Forall (ok19 c) l19 /\ Forall (ok20 t c) l20.
 
 (* a fresh type-20 entry goes to the very end *)
-Lemma insert20 q c l19 l20 m :
-  qshape q c l19 l20 -> qinsert (mkQ MSG_ALGO (c + 1) m) q = q ++ [mkQ MSG_ALGO (c + 1) m].
+Lemma insert20 t q c l19 l20 m :
+  REINJECT < t ->
+  qshape t q c l19 l20 -> qinsert (mkQ t (c + 1) m) q = q ++ [mkQ t (c + 1) m].
 Proof.
-  intros (E & H19 & H20). rewrite <- (app_nil_r q) at 1. apply qinsert_split; [|constructor].
+  intros Ht19 (E & H19 & H20). rewrite <- (app_nil_r q) at 1. apply qinsert_split; [|constructor].
   subst q. apply Forall_app; split.
   - eapply Forall_impl; [|exact H19]. intros e [Ht Hc]. unfold key_leb. simpl. rewrite Ht.
-    reflexivity.
+    apply orb_true_iff. left. now apply Z.ltb_lt.
   - eapply Forall_impl; [|exact H20]. intros e [Ht Hc]. unfold key_leb. simpl. rewrite Ht.
-    unfold MSG_ALGO. simpl. apply Z.leb_le. lia.
+    apply orb_true_iff. right. rewrite Z.eqb_refl. simpl. apply Z.leb_le. lia.
 Qed.
 
 (* a fresh type-19 entry goes after the 19s and before the 20s *)
-Lemma insert19 q c l19 l20 m :
-  qshape q c l19 l20 ->
+Lemma insert19 t q c l19 l20 m :
+  REINJECT < t ->
+  qshape t q c l19 l20 ->
   qinsert (mkQ REINJECT (c + 1) m) q = l19 ++ mkQ REINJECT (c + 1) m :: l20.
 Proof.
-  intros (E & H19 & H20). subst q. apply qinsert_split.
+  intros Ht19 (E & H19 & H20). subst q. apply qinsert_split.
   - eapply Forall_impl; [|exact H19]. intros e [Ht Hc]. unfold key_leb. simpl. rewrite Ht.
-    unfold REINJECT. simpl. apply Z.leb_le. lia.
+    apply orb_true_iff. right. rewrite Z.eqb_refl. simpl. apply Z.leb_le. lia.
   - eapply Forall_impl; [|exact H20]. intros e [Ht Hc]. unfold key_leb. simpl. rewrite Ht.
-    reflexivity.
+    apply orb_false_iff. split; [apply Z.ltb_ge; lia|].
+    apply andb_false_iff. left. apply Z.eqb_neq. lia.
 Qed.
 
-Lemma qfold_shape me L : forall q c l19 l20,
-  qshape q c l19 l20 ->
-  exists d19, qshape (fst (qfold me L q c)) (snd (qfold me L q c)) (l19 ++ d19) l20 /\
+Lemma qfold_shape t me L : REINJECT < t -> forall q c l19 l20,
+  qshape t q c l19 l20 ->
+  exists d19, qshape t (fst (qfold me L q c)) (snd (qfold me L q c)) (l19 ++ d19) l20 /\
               qmsgs d19 = L /\ c <= snd (qfold me L q c).
 Proof.
-  induction L as [|p L IH]; intros q c l19 l20 Hs; simpl.
+  intros Ht19. induction L as [|p L IH]; intros q c l19 l20 Hs; simpl.
   - exists []. rewrite app_nil_r. split; [exact Hs|]. split; [reflexivity|lia].
   - set (x := mkQ REINJECT (c + 1) (mkMsg (fst p) me (snd p) REINJECT)).
-    assert (Hs' : qshape (qinsert x q) (c + 1) (l19 ++ [x]) l20).
-    { unfold x. rewrite (insert19 q c l19 l20 _ Hs). destruct Hs as (E & H19 & H20).
+    assert (Hs' : qshape t (qinsert x q) (c + 1) (l19 ++ [x]) l20).
+    { unfold x. rewrite (insert19 t q c l19 l20 _ Ht19 Hs). destruct Hs as (E & H19 & H20).
       split; [now rewrite <- app_assoc|]. split.
       - apply Forall_app; split.
         + eapply Forall_impl; [|exact H19]. intros e. apply ok19_mono. lia.
@@ -336,37 +339,38 @@ Proof.
     + lia.
 Qed.
 
-Record J (me : Z) (st : lstate) (R : list (Z * Z)) : Prop := {
+Record J (t me : Z) (st : lstate) (R : list (Z * Z)) : Prop := {
   J_me : l_me st = me;
   J_seq : l_handled st ++ l_brecv st ++ qmsgs (l_queue st) = R;
-  J_q : exists l19 l20, qshape (l_queue st) (l_cnt st) l19 l20;
+  J_q : exists l19 l20, qshape t (l_queue st) (l_cnt st) l19 l20;
   J_act : l_running st = true -> l_paused st = false -> l_brecv st = [];
   J_bp : Forall (fun p => fst (fst p) <> me) (l_bpost st) }.
 
-Lemma not_urgent_l19 q c l19 l20 :
-  qshape q c l19 l20 -> existsb (fun e => q_type e <=? REINJECT) q = false -> l19 = [].
+Lemma not_urgent_l19 t q c l19 l20 :
+  qshape t q c l19 l20 -> existsb (fun e => q_type e <=? REINJECT) q = false -> l19 = [].
 Proof.
   intros (E & H19 & _) Hu. destruct l19 as [|e r]; auto.
   subst q. simpl in Hu. inversion H19 as [|? ? [Ht _] _]; subst. rewrite Ht in Hu.
   rewrite Z.leb_refl in Hu. discriminate.
 Qed.
 
-Lemma J_reinject me st R :
+Lemma J_reinject t me st R :
+  REINJECT < t ->
   l_me st = me -> l_handled st ++ l_brecv st ++ qmsgs (l_queue st) = R ->
-  (exists l19 l20, qshape (l_queue st) (l_cnt st) l19 l20) ->
+  (exists l19 l20, qshape t (l_queue st) (l_cnt st) l19 l20) ->
   Forall (fun p => fst (fst p) <> me) (l_bpost st) ->
   (l_brecv st = [] \/ urgent_queued st = false) ->
-  J me (reinject st) R.
+  J t me (reinject st) R.
 Proof.
-  intros H1 H2 (l19 & l20 & Hs) H4 Hsafe. rewrite reinject_eq.
-  destruct (qfold_shape (l_me st) (l_brecv st) _ _ _ _ Hs) as (d & Hd & Hm & Hc).
+  intros Ht19 H1 H2 (l19 & l20 & Hs) H4 Hsafe. rewrite reinject_eq.
+  destruct (qfold_shape t (l_me st) (l_brecv st) Ht19 _ _ _ _ Hs) as (d & Hd & Hm & Hc).
   constructor; simpl; auto.
   - destruct Hd as (Eq & _). rewrite Eq. destruct Hs as (Eq0 & Hs19 & Hs20).
     rewrite <- H2, Eq0. f_equal. rewrite !qmsgs_app, Hm.
     destruct Hsafe as [Hb | Hu].
     + rewrite Hb in *. simpl. destruct d; [|discriminate]. simpl. now rewrite app_nil_r.
     + unfold urgent_queued in Hu.
-      rewrite (not_urgent_l19 _ _ _ _ (conj Eq0 (conj Hs19 Hs20)) Hu). reflexivity.
+      rewrite (not_urgent_l19 t _ _ _ _ (conj Eq0 (conj Hs19 Hs20)) Hu). reflexivity.
   - eauto.
 Qed.
 
@@ -377,19 +381,19 @@ Proof.
   destruct (l_brecv st); auto. simpl in Hs. right. now apply negb_true_iff in Hs.
 Qed.
 
-Lemma J_step me st R o :
-  J me st R -> posts_elsewhere me [o] = true -> default_types [o] = true -> safe_step st o = true ->
-  J me (lstep st o) (R ++ received [o]).
+Lemma J_step t me st R o :
+  REINJECT < t ->
+  J t me st R -> posts_elsewhere me [o] = true -> uniform_types t [o] = true -> safe_step st o = true ->
+  J t me (lstep st o) (R ++ received [o]).
 Proof.
-  intros HJ Hpe Hdt Hsafe. rewrite received_one. destruct o; cbn [lstep]; rewrite ?app_nil_r.
+  intros Ht19 HJ Hpe Hdt Hsafe. rewrite received_one. destruct o; cbn [lstep]; rewrite ?app_nil_r.
   - (* Recv *) destruct HJ as [H1 H2 (l19 & l20 & Hs) H3 H4].
-    assert (Ety : with_type ty = MSG_ALGO).
-    { simpl in Hdt. destruct ty as [t|]; auto. simpl. rewrite andb_true_r in Hdt.
-      now apply Z.eqb_eq in Hdt. }
-    unfold lenqueue. rewrite Ety. rewrite (insert20 _ _ _ _ _ Hs).
+    assert (Ety : with_type ty = t).
+    { simpl in Hdt. rewrite andb_true_r in Hdt. now apply Z.eqb_eq in Hdt. }
+    unfold lenqueue. rewrite Ety. rewrite (insert20 t _ _ _ _ _ Ht19 Hs).
     constructor; simpl; auto.
     + rewrite qmsgs_app. simpl. rewrite !app_assoc. rewrite <- H2. now rewrite !app_assoc.
-    + destruct Hs as (Eq & H19 & H20). exists l19, (l20 ++ [mkQ MSG_ALGO (l_cnt st + 1) (mkMsg src (l_me st) id MSG_ALGO)]).
+    + destruct Hs as (Eq & H19 & H20). exists l19, (l20 ++ [mkQ t (l_cnt st + 1) (mkMsg src (l_me st) id t)]).
       split; [now rewrite Eq, app_assoc|]. split.
       * eapply Forall_impl; [|exact H19]. intros e. apply ok19_mono. lia.
       * apply Forall_app; split.
@@ -397,7 +401,7 @@ Proof.
         -- constructor; [|constructor]. split; simpl; auto. lia.
   - (* LNext *) destruct HJ as [H1 H2 (l19 & l20 & Hs) H3 H4]. unfold lnext.
     destruct (l_queue st) as [|e r] eqn:Eq; [constructor; auto; rewrite Eq; eauto|].
-    assert (Hs' : exists a b, qshape r (l_cnt st) a b).
+    assert (Hs' : exists a b, qshape t r (l_cnt st) a b).
     { destruct Hs as (E & H19 & H20). destruct l19 as [|x l19]; simpl in E.
       - destruct l20 as [|x l20]; [discriminate|]. inversion E; subst. inversion H20; subst.
         exists [], l20. repeat split; auto.
@@ -424,42 +428,44 @@ Proof.
     + rewrite sender_other by (now rewrite H1). constructor; simpl; auto.
 Qed.
 
-Lemma default_types_cons o r : default_types (o :: r) = default_types [o] && default_types r.
-Proof. unfold default_types. simpl. now rewrite andb_true_r. Qed.
+Lemma uniform_types_cons t o r : uniform_types t (o :: r) = uniform_types t [o] && uniform_types t r.
+Proof. unfold uniform_types. simpl. now rewrite andb_true_r. Qed.
 
-Lemma J_run me ops : forall st R,
-  J me st R -> posts_elsewhere me ops = true -> default_types ops = true -> safe_run st ops = true ->
-  J me (lrun st ops) (R ++ received ops).
+Lemma J_run t me ops : REINJECT < t -> forall st R,
+  J t me st R -> posts_elsewhere me ops = true -> uniform_types t ops = true -> safe_run st ops = true ->
+  J t me (lrun st ops) (R ++ received ops).
 Proof.
-  induction ops as [|o r IH]; intros st R HJ Hpe Hdt Hsafe.
+  intros Ht19. induction ops as [|o r IH]; intros st R HJ Hpe Hdt Hsafe.
   - simpl. now rewrite app_nil_r.
   - rewrite posts_elsewhere_cons in Hpe. apply andb_true_iff in Hpe as [Ho Hr].
-    rewrite default_types_cons in Hdt. apply andb_true_iff in Hdt as [Hd1 Hd2].
+    rewrite uniform_types_cons in Hdt. apply andb_true_iff in Hdt as [Hd1 Hd2].
     simpl in Hsafe. apply andb_true_iff in Hsafe as [Hs1 Hs2].
     rewrite received_cons, app_assoc. simpl. apply IH; auto. apply J_step; auto.
 Qed.
 
-Lemma held_handled_once_in_order_l me ops :
-  posts_elsewhere me ops = true -> default_types ops = true -> safe_run (linit me) ops = true ->
+Lemma held_handled_once_in_order_l t me ops :
+  REINJECT < t ->
+  posts_elsewhere me ops = true -> uniform_types t ops = true -> safe_run (linit me) ops = true ->
   let st := lrun (linit me) ops in
   l_handled st ++ l_brecv st ++ qmsgs (l_queue st) = received ops.
 Proof.
-  intros Hpe Hdt Hsafe st.
-  assert (J me (linit me) []) as J0.
+  intros Ht19 Hpe Hdt Hsafe st.
+  assert (J t me (linit me) []) as J0.
   { constructor; simpl; auto. exists [], []. repeat split; auto. }
-  destruct (J_run me ops _ _ J0 Hpe Hdt Hsafe) as [H1 H2 H5 H3 H4]. exact H2.
+  destruct (J_run t me ops Ht19 _ _ J0 Hpe Hdt Hsafe) as [H1 H2 H5 H3 H4]. exact H2.
 Qed.
 
-Lemma held_handled_all_when_quiescent_l me ops :
-  posts_elsewhere me ops = true -> default_types ops = true -> safe_run (linit me) ops = true ->
+Lemma held_handled_all_when_quiescent_l t me ops :
+  REINJECT < t ->
+  posts_elsewhere me ops = true -> uniform_types t ops = true -> safe_run (linit me) ops = true ->
   let st := lrun (linit me) ops in
   l_running st = true -> l_paused st = false -> l_queue st = [] ->
   l_handled st = received ops /\ l_brecv st = [].
 Proof.
-  intros Hpe Hdt Hsafe st Hr Hp Hq.
-  assert (J me (linit me) []) as J0.
+  intros Ht19 Hpe Hdt Hsafe st Hr Hp Hq.
+  assert (J t me (linit me) []) as J0.
   { constructor; simpl; auto. exists [], []. repeat split; auto. }
-  destruct (J_run me ops _ _ J0 Hpe Hdt Hsafe) as [H1 H2 H5 H3 H4]. simpl in H2.
+  destruct (J_run t me ops Ht19 _ _ J0 Hpe Hdt Hsafe) as [H1 H2 H5 H3 H4]. simpl in H2.
   fold st in H2, H3. rewrite (H3 Hr Hp), Hq in H2. simpl in H2. rewrite app_nil_r in H2.
   split; auto.
 Qed.
@@ -470,8 +476,21 @@ Definition refute_ops : list lop :=
 
 Lemma held_order_refuted_l :
   exists me ops,
-    posts_elsewhere me ops = true /\ default_types ops = true /\
+    posts_elsewhere me ops = true /\ uniform_types MSG_ALGO ops = true /\
     let st := lrun (linit me) ops in
     l_running st = true /\ l_paused st = false /\ l_queue st = [] /\ l_brecv st = [] /\
     received ops = [(6, 1); (5, 2)] /\ l_handled st = [(5, 2); (6, 1)].
 Proof. exists 0, refute_ops. vm_compute. repeat split; reflexivity. Qed.
+
+(* the type guard cannot be dropped either: a held message of type <= 19 is re-queued with
+   type 19 and a newer message of its own type overtakes it *)
+Definition refute_prio_ops : list lop :=
+  [Recv 6 1 (Some 10); LNext; Start; Recv 6 2 (Some 10); LNext; LNext].
+
+Lemma held_priority_refuted_l :
+  exists me ops,
+    posts_elsewhere me ops = true /\ uniform_types 10 ops = true /\ safe_run (linit me) ops = true /\
+    let st := lrun (linit me) ops in
+    l_running st = true /\ l_paused st = false /\ l_queue st = [] /\ l_brecv st = [] /\
+    received ops = [(6, 1); (6, 2)] /\ l_handled st = [(6, 2); (6, 1)].
+Proof. exists 0, refute_prio_ops. vm_compute. repeat split; reflexivity. Qed.
